@@ -70,6 +70,28 @@ type World struct {
 	// subscription/registration) is not determined.
 	multiKill bool
 	now       time.Duration
+	// C07: sessions that have stopped reading. Messages routed to them pile up
+	// in their outbound queue (capacity cap) and the rest is lost.
+	stalled map[int]bool
+	backlog map[int][]expMsg // what the stalled session will find when it reads again, in order
+	unsure  map[int]bool     // an optional message was routed to it: occupancy no longer exact
+	overflowed map[int]bool
+}
+
+// queueCap is how many messages can wait for a session that does not read:
+// its configured queue, plus one that a serialised transport's send handler
+// holds while it waits for the socket.
+func (w *World) queueCap(s int) int {
+	q := w.c.Sess[s].QSize
+	if q == 0 {
+		q = 64
+	}
+	if !w.sess[s].local {
+		// one message in the send handler's hand and one already taken by the
+		// client's pending socket read
+		q += 2
+	}
+	return q
 }
 
 // routerProc reports whether the router itself provides the wamp.* procedure
@@ -90,7 +112,8 @@ func routerProc(rc *RealmCfg, proc string) bool {
 }
 
 func newWorld(c *Case, prop string, st *CaseStats) *World {
-	w := &World{prop: prop, c: c, realms: map[string]*RealmCfg{}, st: st, killed: map[int]string{}, dying: map[int]bool{}}
+	w := &World{prop: prop, c: c, realms: map[string]*RealmCfg{}, st: st, killed: map[int]string{}, dying: map[int]bool{},
+		stalled: map[int]bool{}, backlog: map[int][]expMsg{}, unsure: map[int]bool{}, overflowed: map[int]bool{}}
 	for i := range c.Realms {
 		w.realms[c.Realms[i].URI] = &c.Realms[i]
 	}
@@ -190,10 +213,18 @@ func (o *compositeOracle) onStep(e *Engine, st *StepRec) *Violation {
 	w := o.w
 	w.now = st.T
 	exp := Exp{}
+	resumed := map[int]bool{}
 	for _, oi := range st.OpIdx {
 		op := &e.C.Ops[oi]
 		if op.K == "drop" && op.S >= 0 && op.S < len(w.sess) {
 			o.endSession(st, op.S, exp)
+		}
+		if op.K == "stall" && w.sess[op.S].live() {
+			w.stalled[op.S] = true
+		}
+		if op.K == "resume" && w.stalled[op.S] {
+			delete(w.stalled, op.S)
+			resumed[op.S] = true
 		}
 	}
 	if st.Phase == "drop" {
@@ -336,7 +367,7 @@ func (o *compositeOracle) onStep(e *Engine, st *StepRec) *Violation {
 			if !w.sess[idx].live() {
 				continue
 			}
-			if reason != "" {
+			if reason != "" && !w.stalled[idx] {
 				found := false
 				for _, x := range st.Recv[idx] {
 					if g, ok := x.(*wamp.Goodbye); ok && string(g.Reason) == reason {
@@ -346,6 +377,12 @@ func (o *compositeOracle) onStep(e *Engine, st *StepRec) *Violation {
 				if !found {
 					return w.fail(st, "session %d was killed through the meta API with reason %q but did not receive that GOODBYE (received %s)", idx, reason, recvString(st.Recv[idx]))
 				}
+			}
+			if w.stalled[idx] {
+				// a silent victim finds the GOODBYE (if it still fitted) when it reads again
+				w.backlog[idx] = append(w.backlog[idx], expMsg{desc: "GOODBYE (killed while silent)", optional: true,
+					match: func(x wamp.Message) bool { _, ok := x.(*wamp.Goodbye); return ok }})
+				w.unsure[idx] = true
 			}
 			w.dying[idx] = true
 			o.endSession(st, idx, exp)
@@ -376,6 +413,108 @@ func (o *compositeOracle) onStep(e *Engine, st *StepRec) *Violation {
 	}
 	for idx := range w.dying {
 		delete(exp, idx)
+	}
+	// sessions that do not read: what is routed to them queues up to the capacity, the rest is lost
+	for s := range w.stalled {
+		for _, x := range exp[s] {
+			if x.optional {
+				w.unsure[s] = true
+				w.backlog[s] = append(w.backlog[s], x)
+				continue
+			}
+			if len(w.backlog[s]) < w.queueCap(s) || w.unsure[s] {
+				w.backlog[s] = append(w.backlog[s], x)
+			} else {
+				w.overflowed[s] = true
+				w.st.Label("stalled_queue_overflow")
+			}
+		}
+		delete(exp, s)
+	}
+	if st.Phase == "settle" {
+		// the engine lets silent sessions read again only after the 24 virtual
+		// hours: whatever was routed to them during that time queued up as well
+		for s := range w.stalled {
+			delete(w.stalled, s)
+			resumed[s] = true
+		}
+	}
+	// a session that reads again finds exactly what was queued, in order
+	for s := range resumed {
+		if !w.sess[s].joined {
+			continue
+		}
+		got := st.Recv[s]
+		cp := w.queueCap(s)
+		bl := w.backlog[s]
+		delete(w.backlog, s)
+		wasUnsure := w.unsure[s]
+		delete(w.unsure, s)
+		var kept []wamp.Message
+		for _, g := range got {
+			if !ignore(s, g) {
+				kept = append(kept, g)
+			}
+		}
+		cur := exp[s] // expectations of this very step come after the backlog
+		delete(exp, s)
+		if len(kept) > cp+len(cur)+1 {
+			return w.fail(st, "session %d stopped reading with an outbound queue of %d; when it read again it found %d messages (%s)", s, cp, len(kept), recvString(kept))
+		}
+		if !wasUnsure && !w.sess[s].ended && w.sess[s].local {
+			// exact: the first min(len, cap) queued messages, in order, then this step's
+			want := bl
+			if len(want) > cp {
+				want = want[:cp]
+			}
+			i := 0
+			for _, x := range want {
+				if i >= len(kept) || !x.match(kept[i]) {
+					return w.fail(st, "session %d (queue %d) read again: message %d should be %s; it found %s", s, cp, i, x.desc, recvString(kept))
+				}
+				i++
+			}
+			rest := map[int][]wamp.Message{s: kept[i:]}
+			if msg := checkExpectations(Exp{s: cur}, rest, len(w.sess), nil); msg != "" {
+				return w.fail(st, "after reading its backlog: %s", msg)
+			}
+			w.st.Label("stalled_backlog_exact")
+		} else {
+			// only: nothing that was never routed to it
+			all := append(append([]expMsg{}, bl...), cur...)
+			for i := range all {
+				all[i].optional = true
+				all[i].seq = 0
+			}
+			if msg := checkExpectations(Exp{s: all}, map[int][]wamp.Message{s: kept}, len(w.sess), nil); msg != "" {
+				return w.fail(st, "session %d read again: %s", s, msg)
+			}
+			w.st.Label("stalled_backlog_bounded")
+		}
+		if st.Recv != nil {
+			delete(st.Recv, s)
+		}
+	}
+	// More messages routed to a session within one step (one virtual instant)
+	// than its queue holds: it cannot have read in between, so the surplus is
+	// lost however fast it reads. Which ones survive is then only bounded.
+	for s, xs := range exp {
+		need := 0
+		for _, x := range xs {
+			if !x.optional {
+				need++
+			}
+		}
+		if cp := w.queueCap(s); need > cp {
+			if len(st.Recv[s]) > cp {
+				return w.fail(st, "session %d has an outbound queue of %d but received %d messages routed within one virtual instant", s, cp, len(st.Recv[s]))
+			}
+			for i := range xs {
+				xs[i].optional = true
+				xs[i].seq = 0
+			}
+			w.st.Label("burst_exceeds_queue_of_reading_session")
+		}
 	}
 	msg := checkExpectations(exp, st.Recv, len(w.sess), ignore)
 	for idx := range w.dying {
